@@ -593,6 +593,18 @@ class C10(Driver):
                                 "p": [[a, b - a, blob.hex()]],
                                 "d": "envref@%d -> separate on-stack env {offset %d length %d} on fiber #%d (was %d/%d)"
                                      % (a, off, ln, e["fiber"], e["offset"], e["length"])})
+        if f.role == "fiber.flags" and "toppc" in f.ctx:
+            # status and program counter changed together: every status that can still be resumed (or is said to be
+            # finished) with the top frame's pc moved towards and past the end of its function
+            po, ps, pv = f.ctx["toppc"]
+            j = len(out)
+            for st in (3, 9, 10, 11, 12, 13, 4, 8):
+                for dpc in (1, 2, 3, 4, 5, 6, 8, 12):
+                    j += 1
+                    fv = (f.val & ~0x3F0000) | (st << 16)
+                    out.append({"k": "field", "b": 0, "lk": 1 if dct else j & 1, "mask": ALL_MASK, "aseed": (f.off + j) % 997,
+                                "p": [[f.off, f.size, img.enc_int(fv).hex()], [po, ps, img.enc_int(pv + dpc).hex()]],
+                                "d": "fiber.flags@%d status -> %d and top frame pc %d -> %d" % (f.off, st, pv, pv + dpc)})
         if f.role == "frameenv.site":
             # the frame names, as its own environment, an on-stack environment that says it lives on another fiber
             a, b = f.ctx["site"]
